@@ -23,7 +23,7 @@ def module_of(name):
     """module (file stem) of /verif/kani/src that defines harness `name`"""
     for f in sorted(os.listdir(os.path.join(KANI_DIR, 'src'))):
         if f.endswith('.rs') and f != 'lib.rs':
-            if re.search(r'fn %s\s*\(' % re.escape(name), open(os.path.join(KANI_DIR, 'src', f)).read()):
+            if re.search(r'(?:fn %s\s*\(|seg_harness!\(%s,)' % (re.escape(name), re.escape(name)), open(os.path.join(KANI_DIR, 'src', f)).read()):
                 return f[:-3]
     raise Inconclusive('kani harness %s not found in /verif/kani/src' % name)
 
@@ -44,7 +44,7 @@ def parse_results(text):
     return res
 
 
-def run(run, pid, harnesses, jobs=8, total_timeout=900, extra_args=(), mem_gb=12):
+def run(run, pid, harnesses, jobs=8, total_timeout=900, extra_args=(), mem_gb=24):
     """harnesses: list of dicts {name, role: 'proof'|'witness', note, bounds}.
     Records into run.kani; returns dict name -> verdict."""
     _sync_lock()
